@@ -56,6 +56,22 @@ def programs(t):
             if srep[0] == drep[0]:
                 lines.append(line(T(srep, -2), T(drep, -4), tag, 'VIA_CTOR'))
                 lines.append(line(T(srep, -3), T(drep, -3), tag, 'VIA_CTOR'))
+    # static_number destinations (the property names them): from floating point, from a finer PLAIN scaled_integer, and from a
+    # finer static_number whose own rounding tag differs (the destination's mode must decide)
+    RT = dict(NEA='nearest', TIE='tie_to_pos_inf', NEG='neg_inf')
+    for tag in ['NEA', 'TIE', 'NEG']:
+        def sn(src, d, e, name=None):
+            lines.append('{ using S_ = %s; using D_ = SI<i64, %d>; prog<S_, D_, %s, VIA_SN, %d>(FB, ST%s); }' % (src, e, tag, d, (', "%s"' % name) if name else ''))
+        for f in floats:
+            for (d, e) in ([(8, -2), (20, -8)] if not t else [(8, -2), (7, 0), (20, -8), (31, -16), (40, -20), (15, 3)]):
+                sn(f, d, e)
+        for (srep, se, d, e) in ([('i8', -4, 6, -1), ('i16', -8, 8, -2), ('i32', -8, 8, -2), ('i32', -16, 20, -4), ('i64', -30, 31, -10), ('u8', -3, 7, 0)] if not t else
+                                 [('i8', -4, 6, -1), ('i8', -7, 4, -3), ('u8', -3, 7, 0), ('i16', -8, 8, -2), ('i16', -8, 12, -7), ('i32', -8, 8, -2), ('i32', -16, 20, -4), ('i32', -1, 31, 0),
+                                  ('i64', -30, 31, -10), ('i64', -40, 50, -20), ('u32', -8, 24, 0)]):
+            sn(T(srep, se), d, e)
+        for (sd, se, d, e) in ([(7, -4, 6, -1), (12, -8, 8, -2), (20, -16, 6, -1)] if not t else [(7, -4, 6, -1), (7, -4, 4, -3), (12, -8, 8, -2), (15, -10, 10, -5), (20, -16, 6, -1), (40, -30, 16, -4)]):
+            for stag in ['NEA', 'TIE', 'NEG']:
+                sn('SN<%d, %d, %s>' % (sd, se, stag), d, e, 'static_number<%d,%d,%s>' % (sd, se, RT[stag]))
     return lines
 
 
